@@ -27,92 +27,221 @@ Lemma feq_ignores_flag : forall g n k b b',
 Proof. intros. apply feq_spec. auto. Qed.
 
 (* ---------- de-duplicating insertion ---------- *)
-Lemma insert_cases : forall coll f,
-  (existsb (feq f) coll = true /\ insert coll f = coll) \/ (existsb (feq f) coll = false /\ insert coll f = coll ++ [f]).
-Proof. intros coll f. unfold insert, add_feature. destruct (existsb (feq f) coll); cbn; auto. Qed.
-
-Lemma insert_incl : forall coll f g, In g coll -> In g (insert coll f).
+Lemma feq_congr_r : forall a b x, feq a b = true -> feq x a = feq x b.
 Proof.
-  intros coll f g H. destruct (insert_cases coll f) as [[_ ->]|[_ ->]]; [exact H | apply in_or_app; left; exact H].
+  intros a b x H. apply eq_true_iff_eq. split; intros E; [eapply feq_trans; eassumption|].
+  eapply feq_trans; [exact E | rewrite feq_sym; exact H].
 Qed.
 
-Lemma collect_from_incl : forall order coll g, In g coll -> In g (collect_from coll order).
+Lemma feq_set_requested : forall h x, feq (set_requested h) x = feq h x.
+Proof. reflexivity. Qed.
+
+Lemma feq_set_requested_r : forall h x, feq x (set_requested h) = feq x h.
+Proof. reflexivity. Qed.
+
+Definition has_eq (coll : list feature) (x : feature) : Prop := exists g, In g coll /\ feq g x = true.
+Definition has_flagged_eq (coll : list feature) (x : feature) : Prop :=
+  exists g, In g coll /\ feq g x = true /\ fflag g = true.
+
+Lemma has_eq_cons : forall a t x, has_eq (a :: t) x <-> feq a x = true \/ has_eq t x.
 Proof.
-  induction order as [|f t IH]; intros coll g H; cbn; [exact H|]. apply IH, insert_incl, H.
+  intros a t x. unfold has_eq. split.
+  - intros [g [[<-|Hg] E]]; [left; exact E | right; exists g; auto].
+  - intros [E|[g [Hg E]]]; [exists a; cbn; auto | exists g; cbn; auto].
 Qed.
 
-Lemma collect_from_subset : forall order coll g, In g (collect_from coll order) -> In g coll \/ In g order.
+Lemma has_flagged_eq_cons : forall a t x,
+  has_flagged_eq (a :: t) x <-> (feq a x = true /\ fflag a = true) \/ has_flagged_eq t x.
 Proof.
-  induction order as [|f t IH]; intros coll g H; cbn in *; [left; exact H|].
-  apply IH in H. destruct H as [H|H]; [|right; right; exact H].
-  destruct (insert_cases coll f) as [[_ E]|[_ E]]; rewrite E in H; [left; exact H|].
-  apply in_app_or in H. destruct H as [H|[<-|[]]]; [left; exact H | right; left; reflexivity].
+  intros a t x. unfold has_flagged_eq. split.
+  - intros [g [[<-|Hg] E]]; [left; exact E | right; exists g; auto].
+  - intros [E|[g [Hg E]]]; [exists a; cbn; auto | exists g; cbn; auto].
+Qed.
+
+Lemma has_eq_app : forall l1 l2 x, has_eq (l1 ++ l2) x <-> has_eq l1 x \/ has_eq l2 x.
+Proof.
+  intros l1 l2 x. unfold has_eq. split.
+  - intros [g [Hg E]]. apply in_app_or in Hg. destruct Hg; [left | right]; exists g; auto.
+  - intros [[g [Hg E]]|[g [Hg E]]]; exists g; (split; [apply in_or_app; auto | exact E]).
+Qed.
+
+Lemma has_flagged_eq_app : forall l1 l2 x, has_flagged_eq (l1 ++ l2) x <-> has_flagged_eq l1 x \/ has_flagged_eq l2 x.
+Proof.
+  intros l1 l2 x. unfold has_flagged_eq. split.
+  - intros [g [Hg E]]. apply in_app_or in Hg. destruct Hg; [left | right]; exists g; auto.
+  - intros [[g [Hg E]]|[g [Hg E]]]; exists g; (split; [apply in_or_app; auto | exact E]).
+Qed.
+
+Lemma existsb_feq_has_eq : forall f coll, existsb (feq f) coll = true <-> has_eq coll f.
+Proof.
+  intros f coll. rewrite existsb_exists. unfold has_eq.
+  split; intros [g [Hg E]]; exists g; (split; [exact Hg | rewrite feq_sym; exact E]).
+Qed.
+
+Lemma mark_has_eq : forall f coll x, has_eq (mark_requested f coll) x <-> has_eq coll x.
+Proof.
+  intros f coll x. induction coll as [|a t IH]; cbn; [tauto|]. destruct (feq a f).
+  - rewrite !has_eq_cons, feq_set_requested. tauto.
+  - rewrite !has_eq_cons, IH. tauto.
+Qed.
+
+Lemma mark_flagged : forall f coll x, has_eq coll f ->
+  (has_flagged_eq (mark_requested f coll) x <-> has_flagged_eq coll x \/ feq f x = true).
+Proof.
+  intros f coll x. induction coll as [|a t IH]; intros He; [destruct He as [g [[] _]]|]. cbn.
+  destruct (feq a f) eqn:Eaf.
+  - rewrite !has_flagged_eq_cons, feq_set_requested. cbn [fflag set_requested].
+    assert (Hx : feq a x = feq f x).
+    { apply eq_true_iff_eq. split; intros E; [eapply feq_trans; [rewrite feq_sym; exact Eaf | exact E] | eapply feq_trans; eassumption]. }
+    rewrite Hx. tauto.
+  - apply has_eq_cons in He. destruct He as [He|He]; [congruence|]. rewrite !has_flagged_eq_cons, (IH He). tauto.
+Qed.
+
+Lemma insert_has_eq : forall coll f x, has_eq (insert coll f) x <-> has_eq coll x \/ feq f x = true.
+Proof.
+  intros coll f x. unfold insert, add_feature. destruct (existsb (feq f) coll) eqn:Ex; cbn [fst].
+  - apply existsb_feq_has_eq in Ex. assert (A : feq f x = true -> has_eq coll x).
+    { intros E. destruct Ex as [g [Hg Eg]]. exists g. split; [exact Hg | eapply feq_trans; eassumption]. }
+    destruct (fflag f); [rewrite mark_has_eq|]; tauto.
+  - rewrite has_eq_app, has_eq_cons. unfold has_eq at 3. split; [|tauto]. intros [H|[H|[g [[] _]]]]; auto.
+Qed.
+
+Lemma insert_flagged : forall coll f x,
+  has_flagged_eq (insert coll f) x <-> has_flagged_eq coll x \/ (feq f x = true /\ fflag f = true).
+Proof.
+  intros coll f x. unfold insert, add_feature. destruct (existsb (feq f) coll) eqn:Ex; cbn [fst].
+  - apply existsb_feq_has_eq in Ex. destruct (fflag f) eqn:Ef; [rewrite (mark_flagged _ _ _ Ex); tauto|].
+    split; [auto | intros [H|[_ H]]; [exact H | discriminate]].
+  - rewrite has_flagged_eq_app, has_flagged_eq_cons. unfold has_flagged_eq at 3. split; [|tauto].
+    intros [H|[H|[g [[] _]]]]; auto.
+Qed.
+
+Lemma collect_from_has_eq : forall order coll x,
+  has_eq (collect_from coll order) x <-> has_eq coll x \/ exists r, In r order /\ feq r x = true.
+Proof.
+  induction order as [|f t IH]; intros coll x; cbn.
+  - split; [auto|]. intros [H|[r [[] _]]]. exact H.
+  - change (fold_left insert t (insert coll f)) with (collect_from (insert coll f) t). rewrite IH, insert_has_eq. split.
+    + intros [[H|H]|[r [Hr E]]]; [auto | right; exists f; auto | right; exists r; auto].
+    + intros [H|[r [[<-|Hr] E]]]; [auto | auto | right; exists r; auto].
+Qed.
+
+Lemma collect_from_flagged : forall order coll x,
+  has_flagged_eq (collect_from coll order) x <->
+  has_flagged_eq coll x \/ exists r, In r order /\ feq r x = true /\ fflag r = true.
+Proof.
+  induction order as [|f t IH]; intros coll x; cbn.
+  - split; [auto|]. intros [H|[r [[] _]]]. exact H.
+  - change (fold_left insert t (insert coll f)) with (collect_from (insert coll f) t). rewrite IH, insert_flagged. split.
+    + intros [[H|H]|[r [Hr E]]]; [auto | right; exists f; auto | right; exists r; auto].
+    + intros [H|[r [[<-|Hr] E]]]; [auto | auto | right; exists r; auto].
 Qed.
 
 Lemma collect_from_app : forall l1 l2 coll, collect_from coll (l1 ++ l2) = collect_from (collect_from coll l1) l2.
 Proof. intros. unfold collect_from. apply fold_left_app. Qed.
 
-(* the stored representative of an equality class is its first occurrence *)
-Lemma collect_from_first : forall order coll g,
-  In g (collect_from coll order) <->
-  In g coll \/ exists l1 l2, order = l1 ++ g :: l2 /\ (forall h, In h coll \/ In h l1 -> feq g h = false).
+(* the collection never holds two equal features *)
+Inductive Distinct : list feature -> Prop :=
+| D_nil : Distinct []
+| D_cons : forall a l, (forall b, In b l -> feq a b = false) -> Distinct l -> Distinct (a :: l).
+
+Lemma Distinct_eq : forall l, Distinct l -> forall a b, In a l -> In b l -> feq a b = true -> a = b.
 Proof.
-  induction order as [|f t IH]; intros coll g.
-  - cbn. split; [auto|]. intros [H|(l1 & l2 & H & _)]; [exact H | destruct l1; discriminate].
-  - cbn [collect_from fold_left]. change (fold_left insert t (insert coll f)) with (collect_from (insert coll f) t).
-    rewrite IH. destruct (insert_cases coll f) as [[Ex E]|[Ex E]]; rewrite E.
-    + apply existsb_exists in Ex. destruct Ex as [h0 [Hh0 Hf0]]. split.
-      * intros [H|(l1 & l2 & -> & Hn)]; [left; exact H|]. right. exists (f :: l1), l2. split; [reflexivity|].
-        intros h [Hh|[<-|Hh]]; [apply Hn; auto | | apply Hn; auto].
-        destruct (feq g f) eqn:Egf; [|reflexivity]. rewrite <- (Hn h0 (or_introl Hh0)). symmetry.
-        eapply feq_trans; eassumption.
-      * intros [H|(l1 & l2 & Ho & Hn)]; [left; exact H|]. destruct l1 as [|x l1]; cbn in Ho; injection Ho as <- ->.
-        -- rewrite (Hn h0 (or_introl Hh0)) in Hf0. discriminate.
-        -- right. exists l1, l2. split; [reflexivity|]. intros h [Hh|Hh]; apply Hn; [left | right; right]; exact Hh.
-    + split.
-      * intros [H|(l1 & l2 & -> & Hn)].
-        -- apply in_app_or in H. destruct H as [H|[<-|[]]]; [left; exact H|]. right. exists [], t. split; [reflexivity|].
-           intros h [Hh|[]]. rewrite <- not_true_iff_false in Ex. destruct (feq f h) eqn:Efh; [|reflexivity].
-           exfalso. apply Ex. apply existsb_exists. exists h. auto.
-        -- right. exists (f :: l1), l2. split; [reflexivity|].
-           intros h [Hh|[<-|Hh]]; apply Hn; [left; apply in_or_app; left; exact Hh | left; apply in_or_app; right; left; reflexivity | right; exact Hh].
-      * intros [H|(l1 & l2 & Ho & Hn)]; [left; apply in_or_app; left; exact H|].
-        destruct l1 as [|x l1]; cbn in Ho; injection Ho as <- ->.
-        -- left. apply in_or_app. right. left. reflexivity.
-        -- right. exists l1, l2. split; [reflexivity|]. intros h [Hh|Hh]; apply Hn.
-           ++ apply in_app_or in Hh. destruct Hh as [Hh|[<-|[]]]; [left; exact Hh | right; left; reflexivity].
-           ++ right. right. exact Hh.
+  intros l H. induction H as [|h l Hh Hl IH]; intros a b Ha Hb E; [destruct Ha|].
+  destruct Ha as [<-|Ha]; destruct Hb as [<-|Hb]; try reflexivity.
+  - rewrite (Hh _ Hb) in E. discriminate.
+  - rewrite feq_sym, (Hh _ Ha) in E. discriminate.
+  - apply IH; assumption.
 Qed.
 
-Lemma collect_first_l : forall order g,
-  In g (collect order) <-> exists l1 l2, order = l1 ++ g :: l2 /\ (forall h, In h l1 -> feq g h = false).
+Lemma mark_in : forall f coll b, In b (mark_requested f coll) -> exists h, In h coll /\ feq h b = true.
 Proof.
-  intros order g. unfold collect. rewrite collect_from_first. split.
-  - intros [[]|(l1 & l2 & H & Hn)]. exists l1, l2. split; [exact H | intros h Hh; apply Hn; right; exact Hh].
-  - intros (l1 & l2 & H & Hn). right. exists l1, l2. split; [exact H | intros h [[]|Hh]; apply Hn, Hh].
+  intros f coll b. induction coll as [|a t IH]; cbn; [intros []|]. destruct (feq a f).
+  - intros [<-|H]; [exists a; split; [left; reflexivity | rewrite feq_set_requested_r; apply feq_refl]
+                   | exists b; split; [right; exact H | apply feq_refl]].
+  - intros [<-|H]; [exists a; split; [left; reflexivity | apply feq_refl]|].
+    destruct (IH H) as [h [Hh E]]. exists h. split; [right; exact Hh | exact E].
 Qed.
+
+Lemma mark_distinct : forall f coll, Distinct coll -> Distinct (mark_requested f coll).
+Proof.
+  intros f coll H. induction H as [|a l Ha Hl IH]; cbn; [constructor|]. destruct (feq a f).
+  - constructor; [|exact Hl]. intros b Hb. rewrite feq_set_requested. apply Ha, Hb.
+  - constructor; [|exact IH]. intros b Hb. destruct (mark_in _ _ _ Hb) as [h [Hh E]].
+    rewrite <- (feq_congr_r _ _ a E). apply Ha, Hh.
+Qed.
+
+Lemma Distinct_snoc : forall l f, Distinct l -> (forall b, In b l -> feq b f = false) -> Distinct (l ++ [f]).
+Proof.
+  intros l f H. induction H as [|a l Ha Hl IH]; intros Hf; cbn.
+  - constructor; [intros b []|constructor].
+  - constructor.
+    + intros b Hb. apply in_app_or in Hb. destruct Hb as [Hb|[<-|[]]]; [apply Ha, Hb | apply Hf; left; reflexivity].
+    + apply IH. intros b Hb. apply Hf. right. exact Hb.
+Qed.
+
+Lemma insert_distinct : forall coll f, Distinct coll -> Distinct (insert coll f).
+Proof.
+  intros coll f H. unfold insert, add_feature. destruct (existsb (feq f) coll) eqn:Ex; cbn [fst].
+  - destruct (fflag f); [apply mark_distinct|]; exact H.
+  - apply Distinct_snoc; [exact H|]. intros b Hb. rewrite feq_sym. rewrite <- not_true_iff_false in Ex.
+    destruct (feq f b) eqn:E; [|reflexivity]. exfalso. apply Ex. apply existsb_exists. exists b. auto.
+Qed.
+
+Lemma collect_from_distinct : forall order coll, Distinct coll -> Distinct (collect_from coll order).
+Proof.
+  induction order as [|f t IH]; intros coll H; cbn; [exact H|]. apply IH, insert_distinct, H.
+Qed.
+
+Lemma collect_distinct_l : forall order a b, In a (collect order) -> In b (collect order) -> feq a b = true -> a = b.
+Proof. intros order. apply Distinct_eq. apply collect_from_distinct. constructor. Qed.
 
 (* ---------- the flag ---------- *)
-Lemma flag_lost_from_false : forall order coll, flag_lost_from coll order = false ->
-  forall r, In r order -> fflag r = true ->
-  exists g, In g (collect_from coll order) /\ feq g r = true /\ fflag g = true.
+Lemma flag_preserved_l : forall order r, In r order -> fflag r = true ->
+  exists g, In g (collect order) /\ feq g r = true /\ fflag g = true.
 Proof.
-  induction order as [|f t IH]; intros coll Hk r Hin Hr; [destruct Hin|].
-  cbn in Hk. apply orb_false_iff in Hk. destruct Hk as [Hf Ht]. cbn [collect_from fold_left].
-  change (fold_left insert t (insert coll f)) with (collect_from (insert coll f) t).
-  destruct Hin as [<-|Hin]; [|apply (IH _ Ht _ Hin Hr)].
-  rewrite Hr in Hf. cbn in Hf. destruct (insert_cases coll f) as [[Ex E]|[Ex E]].
-  - apply existsb_exists in Ex. destruct Ex as [h [Hh Hfh]]. exists h. split; [apply collect_from_incl; rewrite E; exact Hh|].
-    rewrite feq_sym in Hfh. split; [exact Hfh|]. rewrite <- not_true_iff_false in Hf.
-    destruct (fflag h) eqn:Eh; [reflexivity|]. exfalso. apply Hf. apply existsb_exists. exists h. split; [exact Hh|].
-    rewrite Hfh, Eh. reflexivity.
-  - exists f. split; [apply collect_from_incl; rewrite E; apply in_or_app; right; left; reflexivity|].
-    split; [apply feq_refl | exact Hr].
+  intros order r Hr Hf. apply (collect_from_flagged order [] r). right. exists r. split; [exact Hr|].
+  split; [apply feq_refl | exact Hf].
 Qed.
 
-Lemma flag_preserved_partial_l : forall order r, kf_flag_lost order = false -> In r order -> fflag r = true ->
-  exists g, In g (collect order) /\ feq g r = true /\ fflag g = true.
-Proof. intros order r Hk. apply flag_lost_from_false. exact Hk. Qed.
+Definition any_flagged_eq (order : list feature) (g : feature) : bool := existsb (fun r => feq r g && fflag r) order.
+
+Lemma any_flagged_eq_spec : forall order g,
+  any_flagged_eq order g = true <-> exists r, In r order /\ feq r g = true /\ fflag r = true.
+Proof.
+  intros order g. unfold any_flagged_eq. rewrite existsb_exists.
+  split; intros [r [Hr H]]; exists r; (split; [exact Hr|]); [apply andb_true_iff in H | apply andb_true_iff]; exact H.
+Qed.
+
+Lemma collect_flag_l : forall order g, In g (collect order) -> fflag g = any_flagged_eq order g.
+Proof.
+  intros order g Hg. apply eq_true_iff_eq. rewrite any_flagged_eq_spec. split.
+  - intros Hf. assert (H : has_flagged_eq (collect order) g) by (exists g; split; [exact Hg | split; [apply feq_refl | exact Hf]]).
+    apply (collect_from_flagged order [] g) in H. destruct H as [[h [[] _]]|H]. exact H.
+  - intros H. assert (H' : has_flagged_eq (collect order) g) by (apply (collect_from_flagged order [] g); right; exact H).
+    destruct H' as [g' [Hg' [E Fg']]]. rewrite <- (collect_distinct_l order g' g Hg' Hg E). exact Fg'.
+Qed.
+
+(* complete description of the collection: one feature per equality class that occurs among the calls, flagged iff some
+   call of the class was flagged *)
+Lemma collect_spec_l : forall order g,
+  In g (collect order) <-> (exists r, In r order /\ feq r g = true) /\ fflag g = any_flagged_eq order g.
+Proof.
+  intros order g. split.
+  - intros Hg. split; [|apply collect_flag_l, Hg].
+    assert (H : has_eq (collect order) g) by (exists g; split; [exact Hg | apply feq_refl]).
+    apply (collect_from_has_eq order [] g) in H. destruct H as [[h [[] _]]|H]. exact H.
+  - intros [H Hf]. assert (H' : has_eq (collect order) g) by (apply (collect_from_has_eq order [] g); right; exact H).
+    destruct H' as [g' [Hg' E]]. pose proof (collect_flag_l order g' Hg') as Fg'.
+    assert (Eq : any_flagged_eq order g' = any_flagged_eq order g).
+    { apply eq_true_iff_eq. rewrite !any_flagged_eq_spec.
+      split; intros [r [Hr [Er Fr]]]; exists r; (split; [exact Hr|]); (split; [|exact Fr]);
+        [rewrite <- (feq_congr_r _ _ r E) | rewrite (feq_congr_r _ _ r E)]; exact Er. }
+    assert (Ff : fflag g' = fflag g) by congruence.
+    apply feq_spec in E. destruct E as [E1 [E2 E3]].
+    assert (Eg : g' = g) by (destruct g, g'; cbn in *; subst; reflexivity).
+    rewrite <- Eg. exact Hg'.
+Qed.
 
 Lemma dedup_in : forall l x, In x (dedup l) <-> In x l.
 Proof.
@@ -129,37 +258,31 @@ Proof.
   apply E. apply existsb_exists. exists a. split; [exact H | apply String.eqb_refl].
 Qed.
 
-(* under the guard, the flagged members of the collection are exactly the requested features *)
+(* ---------- exactly the requested columns, for every order of the engine's calls ---------- *)
 Section Exact.
   Variables (order req : list feature).
   Hypothesis H1 : forall r, In r req -> fflag r = true /\ In r order.
   Hypothesis H2 : forall g, In g order -> fflag g = true -> In g req.
-  Hypothesis H3 : forall r r', In r req -> In r' req -> feq r r' = true -> r = r'.
-  Hypothesis Hk : kf_flag_lost order = false.
-
-  Lemma flagged_collect : forall g, (In g (collect order) /\ fflag g = true) <-> In g req.
-  Proof.
-    intros g. split.
-    - intros [Hin Hf]. apply collect_from_subset in Hin. destruct Hin as [[]|Hin]. apply H2; assumption.
-    - intros Hr. destruct (H1 _ Hr) as [Hf Ho]. destruct (flag_preserved_partial_l _ _ Hk Ho Hf) as [h [Hh [Eh Fh]]].
-      assert (In h req) as Hhr.
-      { apply H2; [|exact Fh]. apply collect_from_subset in Hh. destruct Hh as [[]|Hh]. exact Hh. }
-      rewrite (H3 _ _ Hhr Hr Eh) in Hh. auto.
-  Qed.
-
   Variables (step : feature -> nat) (cols : nat -> list string).
+  Hypothesis Hstep : forall a b, feq a b = true -> step a = step b.
 
   Lemma requested_names_exact : forall s n,
     In n (requested_names (step_features step (collect order) s)) <-> exists r, In r req /\ step r = s /\ fname r = n.
   Proof.
     intros s n. unfold requested_names, step_features. rewrite dedup_in, in_map_iff. split.
     - intros [g [Hn Hg]]. apply filter_In in Hg. destruct Hg as [Hg Hf]. apply filter_In in Hg. destruct Hg as [Hg Hs].
-      apply Nat.eqb_eq in Hs. exists g. split; [apply flagged_collect; auto | auto].
-    - intros [r [Hr [Hs Hn]]]. apply flagged_collect in Hr. destruct Hr as [Hr Hf]. exists r. split; [exact Hn|].
-      apply filter_In. split; [|exact Hf]. apply filter_In. split; [exact Hr | apply Nat.eqb_eq; exact Hs].
+      apply Nat.eqb_eq in Hs. rewrite (collect_flag_l _ _ Hg) in Hf. apply any_flagged_eq_spec in Hf.
+      destruct Hf as [r [Hr [E Fr]]]. exists r. split; [apply H2; assumption|]. split.
+      + rewrite (Hstep _ _ E). exact Hs.
+      + apply feq_spec in E. destruct E as [_ [E _]]. congruence.
+    - intros [r [Hr [Hs Hn]]]. destruct (H1 _ Hr) as [Fr Ho]. destruct (flag_preserved_l _ _ Ho Fr) as [g [Hg [E Fg]]].
+      exists g. split.
+      + apply feq_spec in E. destruct E as [_ [E _]]. congruence.
+      + apply filter_In. split; [|exact Fg]. apply filter_In. split; [exact Hg|]. apply Nat.eqb_eq.
+        rewrite (Hstep _ _ E). exact Hs.
   Qed.
 
-  Lemma exact_partial_l : forall s c,
+  Lemma exact_l : forall s c,
     In c (step_table cols step (collect order) s) <->
     In c (cols s) /\ exists r, In r req /\ step r = s /\ owner (fname r) c.
   Proof.
@@ -169,25 +292,24 @@ Section Exact.
       apply requested_names_exact. eauto.
   Qed.
 
-  Lemma one_table_l : (forall r r', In r req -> In r' req -> fname r = fname r' -> r = r') ->
+  Lemma one_table_l : (forall r r', In r req -> In r' req -> fname r = fname r' -> step r = step r') ->
     forall r, In r req -> forall s, In (fname r) (requested_names (step_features step (collect order) s)) <-> s = step r.
   Proof.
     intros Hn r Hr s. rewrite requested_names_exact. split.
-    - intros [r' [Hr' [Hs E]]]. rewrite (Hn _ _ Hr' Hr E) in Hs. auto.
+    - intros [r' [Hr' [Hs E]]]. rewrite <- Hs. apply Hn; assumption.
     - intros ->. eauto.
   Qed.
 End Exact.
 
 Lemma order_independent_l : forall order1 req1 order2 req2 step cols,
   (forall r, In r req1 -> fflag r = true /\ In r order1) -> (forall g, In g order1 -> fflag g = true -> In g req1) ->
-  (forall r r', In r req1 -> In r' req1 -> feq r r' = true -> r = r') -> kf_flag_lost order1 = false ->
   (forall r, In r req2 -> fflag r = true /\ In r order2) -> (forall g, In g order2 -> fflag g = true -> In g req2) ->
-  (forall r r', In r req2 -> In r' req2 -> feq r r' = true -> r = r') -> kf_flag_lost order2 = false ->
+  (forall a b, feq a b = true -> step a = step b) ->
   (forall r, In r req1 <-> In r req2) ->
   forall s c, In c (step_table cols step (collect order1) s) <-> In c (step_table cols step (collect order2) s).
 Proof.
-  intros order1 req1 order2 req2 step cols A1 A2 A3 A4 B1 B2 B3 B4 Hreq s c.
-  rewrite (exact_partial_l order1 req1 A1 A2 A3 A4), (exact_partial_l order2 req2 B1 B2 B3 B4).
+  intros order1 req1 order2 req2 step cols A1 A2 B1 B2 Hstep Hreq s c.
+  rewrite (exact_l order1 req1 A1 A2 step cols Hstep), (exact_l order2 req2 B1 B2 step cols Hstep).
   split; intros [Hc [r [Hr Hrest]]]; (split; [exact Hc | exists r; split; [apply Hreq; exact Hr | exact Hrest]]).
 Qed.
 
@@ -233,7 +355,7 @@ Proof.
   - reflexivity.
 Qed.
 
-(* ---------- witnesses of the known-defect domain ---------- *)
+(* ---------- the former witnesses of the flag-lost defect (fixed by 069fedf) now return every requested column ---------- *)
 (* one root group 0 with columns a, b; a GlobalFilter on b *)
 Definition wit_env_filter : genv :=
   {| group_of := fun _ => 0; supported := fun _ => []; inputs := fun _ _ => []; dep_key := fun _ => 1;
@@ -245,36 +367,12 @@ Definition wit_env_index : genv :=
      links := Some [{| lgrp := 0; lidx := ["k"]; rgrp := 1; ridx := ["k2"] |}] |}.
 
 Definition mkf (n : string) (b : bool) : feature := {| fgrp := 0; fname := n; fkey := 0; fflag := b |}.
-Definition wit_order : list feature := [mkf "a" true; mkf "b" false; mkf "b" true; mkf "b" false].
-Definition wit_req : list feature := [mkf "a" true; mkf "b" true].
 
-Lemma wit_order_is_trace : map fst (snd (process_request 3 wit_env_filter ["a"; "b"])) = wit_order.
-Proof. vm_compute. reflexivity. Qed.
-
-Lemma flag_lost_refuted_l :
-  (forall r, In r wit_req -> fflag r = true /\ In r wit_order) /\
-  (forall g, In g wit_order -> fflag g = true -> In g wit_req) /\
-  (forall r r', In r wit_req -> In r' wit_req -> feq r r' = true -> r = r') /\
-  kf_flag_lost wit_order = true /\
-  exists s c, In c ["a"; "b"] /\ (exists r, In r wit_req /\ 0 = s /\ owner (fname r) c) /\
-              ~ In c (step_table (fun _ => ["a"; "b"]) (fun _ => 0) (collect wit_order) s).
-Proof.
-  split; [|split; [|split; [|split]]].
-  - intros r [<-|[<-|[]]]; (split; [reflexivity | cbn; auto]).
-  - intros g [<-|[<-|[<-|[<-|[]]]]] H; cbn in *; auto; discriminate.
-  - intros r r' [<-|[<-|[]]] [<-|[<-|[]]] H; try reflexivity; vm_compute in H; discriminate.
-  - vm_compute. reflexivity.
-  - exists 0, "b". split; [cbn; auto|]. split.
-    + exists (mkf "b" true). split; [cbn; auto|]. split; [reflexivity | left; reflexivity].
-    + vm_compute. intros [H|[]]. discriminate.
-Qed.
-
-(* the same request in the other order keeps b; an index column requested after another feature of its group is lost too *)
-Lemma flag_lost_order_dependence_l :
-  step_table (fun _ => ["a"; "b"]) (fun _ => 0) (fst (process_request 3 wit_env_filter ["a"; "b"])) 0 = ["a"] /\
+Lemma flag_kept_examples_l :
+  map fst (snd (process_request 3 wit_env_filter ["a"; "b"])) = [mkf "a" true; mkf "b" false; mkf "b" true; mkf "b" false] /\
+  fst (process_request 3 wit_env_filter ["a"; "b"]) = [mkf "a" true; mkf "b" true] /\
+  step_table (fun _ => ["a"; "b"]) (fun _ => 0) (fst (process_request 3 wit_env_filter ["a"; "b"])) 0 = ["a"; "b"] /\
   step_table (fun _ => ["a"; "b"]) (fun _ => 0) (fst (process_request 3 wit_env_filter ["b"; "a"])) 0 = ["a"; "b"] /\
-  kf_flag_lost (map fst (snd (process_request 3 wit_env_filter ["b"; "a"]))) = false /\
-  step_table (fun _ => ["k"; "a"]) (fun _ => 0) (fst (process_request 3 wit_env_index ["a"; "k"])) 0 = ["a"] /\
-  kf_flag_lost (map fst (snd (process_request 3 wit_env_index ["a"; "k"]))) = true /\
+  step_table (fun _ => ["k"; "a"]) (fun _ => 0) (fst (process_request 3 wit_env_index ["a"; "k"])) 0 = ["k"; "a"] /\
   step_table (fun _ => ["k"; "a"]) (fun _ => 0) (fst (process_request 3 wit_env_index ["k"; "a"])) 0 = ["k"; "a"].
 Proof. vm_compute. repeat split. Qed.
